@@ -972,7 +972,7 @@ for _i in [1, 2, 3, 4, 5, 6, 7, 8, 10, 11, 12, 13, 14, 15, 16, 17, 18, 19, 20]:
                          what="a new unrelated module sempler/metrics.py (dataclass, walrus, match, keyword-only args)"))
 
 # ------------------------------------------------------------------------------- every rule fires at least once: variants for rules no other entry exercised (group 1)
-V("d-c18-cand-two-stores", "C18", "fire", UT, "        next_supergraph[edges[i]] = 1\n", "        next_supergraph[edges[i]] = 1\n        next_supergraph[edges[i][::-1]] = 0\n", rule="CAND.store", what="the candidate is edited twice")
+V("d-c18-cand-two-stores", "C18", "fire", UT, "        next_supergraph[edges[i]] = 1\n", "        next_supergraph[edges[i]] = 1\n        next_supergraph[edges[i][::-1]] = 0\n", rule="CAND.store", what="the candidate is edited twice (the second store clears an entry that is 0 for every candidate pair: in fact harmless)", accept_inconclusive=True)
 V("d-c15-cc-matrix", "C15", "fire", UT, "            to_visit = (to_visit | neighbors(j, A)) - visited\n", "            to_visit = (to_visit | neighbors(j, G.T)) - visited\n", rule="CC.matrix", what="neighbours taken in another matrix", accept_inconclusive=True)
 V("d-c15-cc-start", "C15", "fire", UT, "    visited = set()\n    to_visit = {i}\n", "    visited = set()\n    to_visit = neighbors(i, A)\n", rule="CC.start", what="search starts from the neighbours: an isolated node has an empty component")
 V("d-c15-cc-transitive", "C15", "fire", UT, "            to_visit = (to_visit | neighbors(j, A)) - visited\n", "            to_visit = (to_visit | neighbors(i, A)) - visited\n", rule="CC.transitive", what="only the neighbours of the start node are followed")
